@@ -509,6 +509,9 @@ fn c13_corpus(w: &W, f: &mut dyn FnMut(Kind, &[u8])) {
     if w.tier == Tier::Thorough {
         plan.g2_small = gen::BOUNDARY.to_vec();
     }
+    // the targeted families too (counter wrap points, UTF-8 boundaries, > 64 KiB inputs, whitespace
+    // prefixes, ...): a defect that exists in one build variant only needs them just as much
+    plan.g9 = Some(w.by_tier((0usize, 0, 1, 2)));
     // NB: the corpus must not depend on VERIF_SEED-independent state only: seed is part of it,
     // and every variant is run with the same seed by the driver.
     for kind in gen::ALL_KINDS {
